@@ -21,6 +21,7 @@ MODULES = {
     "C07": ("c07", "run"),
     "C08": ("c08", "run"),
     "C09": ("c04_c09", "run_c09"),
+    "C10": ("c10", "run"),
     "C11": ("c11", "run"),
     "C12": ("c12", "run"),
     "C13": ("c13_c14", "run_c13"),
